@@ -2,7 +2,7 @@
    format, for every list of fields; hence an object read from a text state and the same object read from a binary
    state are the same object, and every resume theorem holds for both formats. *)
 From Coq Require Import ZArith List Bool Lia Arith.
-From CV Require Import Base.Num C03.ResumeModel C06.RestraintModel C03.ObjectsModel C03.FormatModel.
+From CV Require Import Base.Num C03.ResumeModel C03.ObjectsModel C03.UsesC06 C03.FormatModel.
 Import ListNotations.
 Local Open Scope Z_scope.
 
@@ -72,11 +72,11 @@ Section FormatProofs.
   Qed.
 
   (* a restraint written in either format is read back as the object that [m_load (m_save ..)] builds *)
-  Theorem r_read_write (O : NumOps T) (f : format) (c : @rcfg T) (s : @rstate T) :
+  Theorem r_read_write (O : NumOps T) (f : format) (c : r_cfg T) (s : r_state T) :
     r_read O f c (r_write O f c s) = r_load O c (r_save c s).
   Proof. unfold r_read, r_write. rewrite decode_encode, r_fields_roundtrip. reflexivity. Qed.
 
-  Corollary r_formats_agree (O : NumOps T) (c : @rcfg T) (s : @rstate T) :
+  Corollary r_formats_agree (O : NumOps T) (c : r_cfg T) (s : r_state T) :
     r_read O Text c (r_write O Text c s) = r_read O Binary c (r_write O Binary c s).
   Proof. rewrite !r_read_write. reflexivity. Qed.
 
